@@ -291,3 +291,21 @@ reg("C15", harness="c15_reentrant", level="model_checking", deadline=(480, 2400)
     rule="state = scheduling point (a thread about to access a written granule), transition = one thread step on the real code, "
          "traces_validated_against_impl = complete schedules executed; plus (case x pre-fill pattern) and (history) enumerations; "
          "distinct_nontrivial = explorations, monitored levels and distinct compared outputs.")
+
+
+reg("C05", harness="c05_memory", level="fault_enumeration", deadline=(600, 3000), extra_src=["ref/ref_inflate.c"],
+    technique="enumeration of (entry point x variant x length x placement) with every buffer flush against inaccessible pages, read-only inputs, per-chunk mappings revoked on recycle; portable-C build under AddressSanitizer; NDEBUG build",
+    level_text="Every data-plane call is made with each source/destination/table/level buffer exactly sized and ending (or starting) at a "
+               "PROT_NONE page, inputs mapped read-only, canaries on the other side: one-shot and single-call codecs over the SHAPES inputs x levels x "
+               "wrappers x table choices x 7 CPU levels (level_buf exactly ISAL_DEF_LVLx_MIN, output exactly the documented bound, inflate input "
+               "with no slop bytes); streaming with every chunk in its own exact-size mapping that is made inaccessible as soon as it is recycled "
+               "(uniform (in,out) chunk pairs x levels x flush modes); the same harness on the portable-C build under ASan/UBSan and on the NDEBUG "
+               "build; and the complete kernel sweeps (CRC, erasure code, update, RAID, zero detect: every length x end-flush and start-flush "
+               "placements x every ISA variant) re-run under this property.",
+    level_note="an out-of-range access that lands inside another live buffer of the same call needs an offset beyond the 1 MiB guard bands; "
+               "intra-struct overflows are visible only in the ASan flavour (portable C code, not the assembly kernels).",
+    runs=[dict(flavour="sim", part="exact"), dict(flavour="sim", part="revoke"), dict(flavour="rel"), dict(flavour="noarch"),
+          dict(flavour="sim", harness="c20_zero"), dict(flavour="sim", harness="c04_crc"), dict(flavour="sim", harness="c03_ec"),
+          dict(flavour="sim", harness="c13_update"), dict(flavour="sim", harness="c08_raid")],
+    rule="case = (entry point, variant / CPU level, input or length, placement); a fault, canary damage or sanitizer report is a violation; "
+         "distinct_nontrivial = distinct produced streams, chunk schedules and (implementation, length) sweep points completed.")
